@@ -255,6 +255,11 @@ def run(chk):
     mainrun_monitor(chk)
     from checks import main_wiring as _mw
     _mw.structural(chk)
+    # stop_all() terminates only if every actor returns to its inbox: ask graph ranked (C09) and no looping handler
+    from checks import actors_common as _ac
+    if _ac.regenerate(chk) is not None:
+        _ac.handler_loops_obligation(chk)
+        lean.check_theorems(chk, "Poupool.Properties.C09", ["Poupool.C09.strict_graph_ranked", "Poupool.C09.no_wait_cycle"])
     chk.assumptions += ["OS signal delivery, sys.exit and interpreter shutdown are not modelled (partial)", "termination of stop_all() relies on C09 (no deadlock)",
                         "device.off()/stop() of the fake devices stand for the real GPIO/serial writes"]
     chk.extra["distinct_nontrivial"] = 12
